@@ -16,6 +16,7 @@ EXPLANATION = (
     "(EXEC) stages run one after another in all dispatch modes. Timing follows from the synchronous call structure under rayon's contract.")
 ASSUMPTIONS = ["rayon install/for_each return after all work finished", "SmallVec::retain / ArrayVec::push semantics"]
 TRUSTED = ["rustc nightly MIR construction", "shred-facts driver", "shredlint analyses"]
+TECHNIQUE = 'static: decision tables of the dependency predicate and gate in find_conflict, dominance (judge before cross-off), traversal/idiom check of remove_ids, id wiring in DispatcherBuilder::add, FANOUT coverage of stage loops'
 RULE_TEXT = "one obligation per decision-table row, ordering site, cross-off idiom, id wiring and run-family fan-out"
 EXEC_IDS = ("Stage::execute", "Stage::execute_seq", "SendDispatcher::dispatch", "SendDispatcher::dispatch_par", "SendDispatcher::dispatch_seq", "AsyncDispatcher::dispatch")
 
